@@ -86,7 +86,19 @@ def iter_capacity_facts(conds):
                     out.append((root(inner[2][0]), 8, d, "peek_u64"))
         elif e[0] == "call":
             nm = e[1]
-            if nm.endswith(IS1) and pol is True and e[2]:
+            if nm.endswith(("Option::is_some", "Option::is_none")) and e[2] and isinstance(pol, bool) and (pol is nm.endswith("is_some")):
+                inner = strip_casts(e[2][0])
+                while inner[0] == "ref":
+                    inner = strip_casts(inner[1])
+                if inner[0] == "call" and inner[2]:
+                    n2 = inner[1]
+                    if n2.endswith(PEEK1):
+                        out.append((root(inner[2][0]), 1, d, last_seg(n2) + ".is_some()"))
+                    elif n2.endswith("Iter::peek_u32"):
+                        out.append((root(inner[2][0]), 4, d, "peek_u32.is_some()"))
+                    elif n2.endswith("Iter::peek_u64"):
+                        out.append((root(inner[2][0]), 8, d, "peek_u64.is_some()"))
+            elif nm.endswith(IS1) and pol is True and e[2]:
                 out.append((root(e[2][0]), 1, d, last_seg(nm)))
             elif nm.endswith("Iter::is_buffer_empty") and pol is False and e[2]:
                 out.append((root(e[2][0]), 1, d, "is_buffer_empty"))
@@ -196,12 +208,12 @@ def rule_iter_steps(col, facts, crates):
     return n
 
 
-def rule_peek_many(col, facts):
+def rule_peek_many(col, facts, crates=("lexical_util",)):
     """GRD-peek-many: peek_many_unchecked::<V>() only under IS_CONTIGUOUS and as_slice().len() >= size_of::<V>()."""
     R = "GRD-peek-many"
     n = 0
     for f in facts.all_fns():
-        if f.crate != "lexical_util":
+        if f.crate not in crates:
             continue
         for bb, c, a, d, t in f.calls():
             cn = callee_name(c)
